@@ -111,6 +111,10 @@ def workloads(ctx: core.Ctx) -> list[dict]:
             {"ops": [["blob", "w0", 300]], "end": "close", "setup": True},
             {"ops": [["blob", "a1", 300], ["blob", "a2", 300], ["blob2", "b1", 300], ["blob", "a3", 300],
                      ["blob2", "b2", 300], ["blob2", "b3", 300]], "end": "abandon"}]},
+        # several inserts on both databases issued within one iteration of a running asyncio loop; never closed
+        {"name": "one-iteration", "keys": keys, "sessions": [
+            {"ops": [["cred", "a", None, 0], ["cred", "b", "a", 1], ["blob", "x", 300], ["blob", "y", 300],
+                     ["content", "c", 300]], "end": "abandon", "loop": True}]},
         # wallet rows written by the real AttestationCommunity.on_attestation_complete with an application completion
         # callback that returns / raises, each followed by identity-database traffic only; never closed
         {"name": "callbacks", "keys": keys, "sessions": [
